@@ -29,7 +29,7 @@ CONFIG = dict(
     mode="accept",
     reset_prefix="reset",
     runs={
-        "quick": [dict(name="main", env={"VERIF_N": "1200"}, timeout=120)],
+        "quick": [dict(name="main", env={"VERIF_N": "700"}, timeout=120)],
         "thorough": [dict(name="main", env={"VERIF_N": "6000"}, timeout=600),
                      dict(name="seed2", env={"VERIF_N": "5000"}, seed_offset=1000, timeout=600),
                      dict(name="seed3", env={"VERIF_N": "5000"}, seed_offset=2000, timeout=600),
